@@ -13,13 +13,15 @@ def class_key(c):
 
 @st.composite
 def tree_and_items(draw, features=None, n_classes=3, n_objects=3, value_kw=None, tree_kw=None,
-                   with_mode=True):
+                   with_mode=True, top_level_only=False):
     """-> {"tree": IR, "items": [{"cls": [path], "dir": d, "objs": [json...], "mode": bool}]}"""
     tree = draw(specgen.trees(features=features, **(tree_kw or {})))
     tree = dict(tree)
     excluded = tree.pop("_excluded", {})
     an = spec.Analysis(tree)
     classes = an.classes()
+    if top_level_only:
+        classes = [c for c in classes if len(c["path"]) == 1]
     items = []
     if classes:
         k = min(len(classes), n_classes)
